@@ -68,98 +68,71 @@ def topicosvg_order(repo: Repo, res: Resolver) -> Order:
 
 
 def run(repo: Repo, rep: Report):
-    svg = repo["svg"]
-    res = Resolver(repo)
+    from sa.rules import sem
     folder = Folder(repo)
     for rid, txt in [
-        ("R-ORDER.gate", "checkpicosvg is on every normal path of the in-place pipeline, after every mutating stage, and its result raises"),
-        ("R-SITE.options", "ndigits/allow_text/drop_unsupported reach the stages and the gate under their own names, from the CLI flags too"),
-        ("R-REGEX.allowlist", "language of the element-path allowlist is within the README grammar; required paths; duplicate-id report"),
-        ("R-ORDER.stages", "necessary precedences between pipeline stages; junk removers on every path; nothing changes numbers after rounding"),
+        ("R-ORDER.gate", "topicosvg interpreted on documents that cannot be converted: it raises unless the option that tolerates the content is given; a convertible document comes back conforming"),
+        ("R-SITE.options", "ndigits/allow_text/drop_unsupported have their documented effect when the pipeline is interpreted; the CLI passes its flags under their own names"),
+        ("R-REGEX.allowlist", "the patterns the gate matches element paths against (observed while interpreting it) accept a language within the README grammar; "
+                              "the gate, interpreted on 18 defective variants of a conforming document, reports each defect at its element"),
+        ("R-ORDER.stages", "topicosvg interpreted end to end on a schematic document using every supported feature: the result obeys the grammar "
+                           "(structure, elements, attributes, path letters, rounding, no ignorable content)"),
         ("R-CASE.letters", "explicit_lines/expand_shorthand/absolute reach their target forms; every number is rounded unconditionally"),
         ("R-GUARD.group-attrs", "a kept group is cleared and carries only the clamped opacity the decision was based on"),
-        ("R-SITE.simplify", "attribute/element clean-up sites of _simplify are present on every iteration / after the loop"),
-        ("R-SITE.who-may-create", "element creation sites are the frozen table"),
+        ("R-SITE.simplify", "_simplify interpreted on schematic documents: defs first and only gradients in it, no clip-path/transform/clipPath/stroke attributes left, root presentation attributes purged, groups flattened or reduced to opacity"),
     ]:
         rep.rule(rid, txt)
-    order = topicosvg_order(repo, res)
-    fn = svg.func("SVG.topicosvg")
-    F = "svg.SVG.topicosvg"
-    rep.saw(F)
-    inplace_entry = order.branch_entry("not inplace", "false")
-    if inplace_entry is None:
-        raise AnalysisError("topicosvg: `if not inplace` prologue not found")
-    # ---- gate
-    if not order.has("checkpicosvg"):
-        rep.fail("R-ORDER.gate", F, "self.checkpicosvg(...)", "the conversion no longer calls the final check", svg, fn)
-    elif not order.on_all_paths_from(inplace_entry, "checkpicosvg"):
-        rep.fail("R-ORDER.gate", F, "self.checkpicosvg(...)", "a normal return of the in-place conversion is reachable without passing the final check", svg, fn)
-    else:
-        rep.ok("R-ORDER.gate", f"{F}: checkpicosvg post-dominates the in-place branch entry", "", True)
-    for st in STAGES:
-        if st == "checkpicosvg" or not order.has(st):
-            continue
-        bad = order.never_after(st, "checkpicosvg")
-        if bad:
-            rep.fail("R-ORDER.gate", F, f"self.{st}(...) after the gate", f"{bad}: the tree is modified after it was validated", svg, fn)
-        else:
-            rep.ok("R-ORDER.gate", f"{F}: {st} never after the gate")
-    from sa.rules.c17 import _check_gate
-    _check_gate(repo, rep)
-    # ---- options
-    gate_calls = [c for c in ast.walk(fn) if isinstance(c, ast.Call) and call_name(c) == "self.checkpicosvg"]
-    for c in gate_calls:
-        for opt in ("allow_text", "drop_unsupported"):
-            v = kwarg(c, opt)
-            if v is None or unparse(v) != opt:
-                rep.fail("R-SITE.options", F, c, f"option {opt!r} does not reach checkpicosvg under its own name", svg, c)
-            else:
-                rep.ok("R-SITE.options", f"{F}: checkpicosvg({opt}={opt})")
-    rf = [c for c in ast.walk(fn) if isinstance(c, ast.Call) and call_name(c) == "self.round_floats"]
-    if rf and rf[0].args and unparse(rf[0].args[0]) == "ndigits":
-        rep.ok("R-SITE.options", f"{F}: round_floats(ndigits, ...)")
-    else:
-        rep.fail("R-SITE.options", F, "self.round_floats(ndigits, inplace=True)", "ndigits does not reach round_floats", svg, fn)
-    for c in ast.walk(fn):
-        if isinstance(c, ast.Call) and call_name(c).startswith("self.") and call_name(c).split(".")[1] in STAGES and call_name(c) != "self.checkpicosvg" \
-                and not _under_not_inplace(c):
-            v = kwarg(c, "inplace")
-            if not (isinstance(v, ast.Constant) and v.value is True):
-                rep.fail("R-SITE.options", F, c, "pipeline stage is not run in place: its result is discarded", svg, c)
+    _check_gate_raises(repo, rep)
     _check_cli(repo, rep)
-    # ---- stage precedence
-    for a, b, why in PRECEDENCE:
-        if not order.has(a):
-            rep.fail("R-ORDER.stages", F, f"self.{a}(inplace=True)", f"stage {a} is missing from the pipeline ({why})", svg, fn)
-            continue
-        if not order.on_all_paths_from(inplace_entry, a):
-            rep.fail("R-ORDER.stages", F, f"self.{a}(inplace=True)", f"stage {a} is not on every path of the in-place pipeline ({why})", svg, fn)
-            continue
-        bad = order.must_precede(a, b)
-        if bad:
-            rep.fail("R-ORDER.stages", F, f"{a} before {b}", f"{bad} - {why}", svg, fn, path=[f"entry {F}", bad])
-        else:
-            rep.ok("R-ORDER.stages", f"{F}: {a} dominates {b}", why, True)
-    for st in ("remove_processing_instructions", "expand_shorthand", "remove_empty_subpaths", "remove_unpainted_shapes"):
-        if not order.on_all_paths_from(inplace_entry, st):
-            rep.fail("R-ORDER.stages", F, f"self.{st}(inplace=True)", f"stage {st} is not on every path of the in-place pipeline", svg, fn)
-        else:
-            rep.ok("R-ORDER.stages", f"{F}: {st} on every path")
-    for g in GEOMETRY_STAGES:
-        bad = order.never_after(g, "round_floats")
-        if bad:
-            rep.fail("R-ORDER.stages", F, f"{g} after round_floats", f"{bad}: numbers produced after rounding reach the output unrounded", svg, fn)
-        else:
-            rep.ok("R-ORDER.stages", f"{F}: {g} never after round_floats")
-    rep.notes.append("pipeline event order: " + " > ".join(order.sequence()))
-    # cleanup-after-removal (finding F5): after the last stage that deletes shape elements, group pruning and orphan removal must still run
-    _cleanup_after_removal(repo, rep, res, order, ("group-pruning",))
     _check_allowlist(repo, rep, folder)
-    _check_stage_bodies(repo, rep)
+    sem.check_gate(repo, rep, {"accepts": "R-REGEX.allowlist", "rejects": "R-REGEX.allowlist", "drop": "R-SITE.options"})
+    sem.check_traverse(repo, rep, {"paths": "R-REGEX.allowlist"})
+    sem.check_pipeline(repo, rep, {"grammar": "R-ORDER.stages", "path-data": "R-ORDER.stages", "rounding": "R-ORDER.stages", "junk": "R-ORDER.stages",
+                                   "completes": "R-ORDER.gate", "kept-group": "R-ORDER.cleanup-after-removal"})
+    rep.rule("R-ORDER.cleanup-after-removal", "no group is left with fewer than two children by a stage that runs after group pruning")
     _check_letters(repo, rep)
     _check_group_attrs(repo, rep)
-    _check_simplify_sites(repo, rep, folder)
-    _check_who_may_create(repo, rep)
+    sem.check_simplify(repo, rep, {"structure": "R-SITE.simplify"})
+
+
+def _check_gate_raises(repo, rep):
+    """The gate is effective: unsupported content makes topicosvg raise; the tolerating option lets it complete."""
+    from sa.rules import sem
+    from sa.dom import El
+    svg = repo["svg"]
+    F = "svg.SVG.topicosvg"
+    fn = svg.func("SVG.topicosvg")
+
+    def doc(extra):
+        def build():
+            root = El("svg", {"viewBox": "0 0 10 10"}, [El("path", {"id": "a", "d": sem.pd(("M", (1, 1)), ("L", (2, 1)), ("L", (2, 2)), ("Z", ()))})] + [extra()], name="root")
+            return root
+        return build
+
+    cases = [
+        ("a <text> element", lambda: El("text", {"id": "t"}, [El("tspan", {})]), {}, "ValueError", None),
+        ("a <text> element with allow_text", lambda: El("text", {"id": "t"}, [El("tspan", {})]), {"allow_text": True}, None, "text"),
+        ("a <text> element with drop_unsupported", lambda: El("text", {"id": "t"}, [El("tspan", {})]), {"drop_unsupported": True}, None, "-text"),
+        ("an <image> element", lambda: El("image", {"id": "i"}), {}, "ValueError", None),
+        ("an <image> element with allow_text", lambda: El("image", {"id": "i"}), {"allow_text": True}, "ValueError", None),
+        ("an <image> element with drop_unsupported", lambda: El("image", {"id": "i"}), {"drop_unsupported": True}, None, "-image"),
+    ]
+    for title, extra, kw, want_exc, want_tag in cases:
+        outs, _ = sem.run_pipeline(repo, ndigits=3, passes=1, doc=doc(extra), **kw)
+        for o in outs:
+            rid = "R-SITE.options" if kw else "R-ORDER.gate"
+            if want_exc:
+                if o.raised != want_exc:
+                    rep.fail(rid, F, title, f"{title}: conversion {'raises ' + o.raised if o.raised else 'returns normally'}; the result cannot be a picosvg, {want_exc} is expected", svg, fn)
+                else:
+                    rep.ok(rid, f"{F}: {title}", f"raises {want_exc}", True)
+            else:
+                tags = [n.local() for n in o.args[0].f["svg_root"].subtree() if isinstance(n.tag, str)] if not o.raised else []
+                present = want_tag.lstrip("-") in tags
+                if o.raised or present != (not want_tag.startswith("-")):
+                    rep.fail(rid, F, title, f"{title}: {'raises ' + o.raised + ' (' + o.raise_msg + ')' if o.raised else 'elements ' + str(tags)}", svg, fn)
+                else:
+                    rep.ok(rid, f"{F}: {title}", "completes; " + ("content kept" if not want_tag.startswith("-") else "offending content dropped"), True)
 
 
 def _under_not_inplace(node) -> bool:
@@ -255,24 +228,16 @@ def _check_allowlist(repo, rep, folder):
     fn = svg.func("SVG.checkpicosvg")
     F = "svg.SVG.checkpicosvg"
     rep.saw(F)
-    base, text_extra, required = None, [], None
-    for n in walk_no_nested(fn):
-        if isinstance(n, ast.Assign) and isinstance(n.value, ast.Set) and unparse(n.targets[0]) == "path_allowlist":
-            base = [e.value for e in n.value.elts if isinstance(e, ast.Constant)]
-            if len(base) != len(n.value.elts):
-                raise AnalysisError("checkpicosvg: path_allowlist contains non-literal patterns")
-        if isinstance(n, ast.Assign) and isinstance(n.value, ast.Set) and unparse(n.targets[0]) == "paths_required":
-            required = {e.value for e in n.value.elts if isinstance(e, ast.Constant)}
-        if isinstance(n, ast.Call) and call_name(n) == "path_allowlist.add":
-            guard = parent(parent(n))
-            if not (isinstance(guard, ast.If) and unparse(guard.test) == "allow_text"):
-                rep.fail("R-REGEX.allowlist", F, n, "an allowlist pattern is added outside the `if allow_text:` guard", svg, n)
-            if isinstance(n.args[0], ast.Constant):
-                text_extra.append(n.args[0].value)
-        if isinstance(n, ast.Call) and call_name(n) in ("path_allowlist.update", "path_allowlist.discard", "path_allowlist.remove"):
-            rep.fail("R-REGEX.allowlist", F, n, "allowlist modified in an unrecognised way", svg, n)
-    if base is None:
-        raise AnalysisError("checkpicosvg: path_allowlist set literal not found")
+    from sa.rules import sem
+    seen_plain = sem.collect_gate_patterns(repo, False)
+    seen_text = sem.collect_gate_patterns(repo, True)
+    if not seen_plain:
+        raise AnalysisError("checkpicosvg: no regular expression is matched against element paths (the gate changed its mechanism)")
+    bad_use = [m for m, _ in seen_plain + seen_text if m == "search"]
+    base = [p if m != "fullmatch" else "^(?:" + p + ")$" for m, p in seen_plain]
+    text_extra = [p if m != "fullmatch" else "^(?:" + p + ")$" for m, p in seen_text if (m, p) not in seen_plain]
+    if bad_use:
+        rep.fail("R-REGEX.allowlist", F, "re.search", "element paths are matched with search(): a conforming substring anywhere would pass", svg, fn)
     rep.tables.add("svg.SVG.checkpicosvg.path_allowlist")
     al = [chr(i) for i in range(32, 127)]
     ref = DFA.from_glushkov(Compiled(spec.PICO_PATH_RE).g, al)
@@ -296,47 +261,6 @@ def _check_allowlist(repo, rep, folder):
             rep.fail("R-REGEX.allowlist", F, pat, f"with allow_text the additional pattern admits {w!r}: more than text content is tolerated", svg, fn)
         else:
             rep.ok("R-REGEX.allowlist", f"{F}: allow_text pattern", "only text/tspan/textPath subtrees below the root", True)
-    if required is None or not {"/svg[0]", "/svg[0]/defs[0]"} <= required:
-        rep.fail("R-REGEX.allowlist", F, "paths_required", f"required paths are {required}: root and defs must both be required", svg, fn)
-    else:
-        rep.ok("R-REGEX.allowlist", f"{F}: paths_required includes root and defs")
-    src = unparse(fn)
-    missing_loop = [n for n in walk_no_nested(fn) if isinstance(n, ast.For) and unparse(n.iter) == "paths_required"]
-    if not (missing_loop and "MissingElement" in unparse(missing_loop[0]) and "paths_required.discard(context.path)" in src):
-        rep.fail("R-REGEX.allowlist", F, "for path in paths_required: errors.append(MissingElement)", "missing required elements are no longer reported", svg, fn)
-    else:
-        rep.ok("R-REGEX.allowlist", f"{F}: missing required paths are reported")
-    # non-matching element: reported (or removed under drop_unsupported)
-    ok_bad = False
-    for n in walk_no_nested(fn):
-        if isinstance(n, ast.If) and "re.match(pat, context.path)" in unparse(n.test) and unparse(n.test).startswith("not any("):
-            inner = [s for s in n.body if isinstance(s, ast.If) and unparse(s.test) == "drop_unsupported"]
-            if inner and "_safe_remove(context.element)" in unparse(inner[0].body[0]) and any("errors.append" in unparse(s) for s in inner[0].orelse) \
-                    and isinstance(n.body[-1], ast.Continue):
-                ok_bad = True
-    if ok_bad:
-        rep.ok("R-REGEX.allowlist", f"{F}: non-matching path -> BadElement (or removed under drop_unsupported)", "", True)
-    else:
-        rep.fail("R-REGEX.allowlist", F, "if not any(re.match(pat, context.path) ...): errors.append / _safe_remove",
-                 "an element whose path is not allow-listed is no longer reported/removed", svg, fn)
-    # duplicate ids
-    dup = any(isinstance(n, ast.If) and unparse(n.test) == "el_id in ids" and any("errors.append" in unparse(s) for s in n.body) for n in walk_no_nested(fn))
-    rec = "ids[el_id] = context.path" in src
-    if dup and rec:
-        rep.ok("R-REGEX.allowlist", f"{F}: duplicate ids reported (check-then-insert on one dict)")
-    else:
-        rep.fail("R-REGEX.allowlist", F, "if el_id in ids: errors.append(...); ids[el_id] = context.path", "duplicate ids are no longer reported", svg, fn)
-    uses = [c for c in ast.walk(fn) if isinstance(c, ast.Call) and call_name(c) == "self.breadth_first"]
-    if not uses:
-        rep.fail("R-REGEX.allowlist", F, "self.breadth_first()", "the check no longer visits every element of the tree", svg, fn)
-    # path format in the traversal
-    tr = svg.func("SVG._traverse")
-    t = unparse(tr)
-    if "'/svg[0]'" in t and "f'{context.path}/{strip_ns(child.tag)}[{nth_of_type}]'" in t and "child_idxs[strip_ns(child.tag)] += 1" in t:
-        rep.ok("R-REGEX.allowlist", "svg.SVG._traverse: paths are /name[n] with n counted per tag among siblings")
-    else:
-        rep.fail("R-REGEX.allowlist", "svg.SVG._traverse", "path = f'{context.path}/{strip_ns(child.tag)}[{nth_of_type}]'",
-                 "element paths are no longer built in the /name[n] format the allowlist patterns assume", svg, tr)
 
 
 def _check_stage_bodies(repo, rep):
@@ -543,30 +467,30 @@ VARIANTS = [
     Variant("allowlist admits use", [Edit(_S, "SVG.checkpicosvg", r'r"^/svg\[0\](/(path|g)\[\d+\])+$"', r'r"^/svg\[0\](/(path|g|use)\[\d+\])+$"')],
             [("R-REGEX.allowlist", "checkpicosvg")]),
     Variant("gate result ignored", [Edit(_S, "SVG.topicosvg", "        if violations:\n            raise ValueError(\"Unable to convert to picosvg: \" + \",\".join(violations))\n", "")],
-            [("R-ORDER.gate-raises", "topicosvg")]),
+            [("R-ORDER.gate", "topicosvg")]),
     Variant("round_floats before absolute", [Edit(_S, "SVG.topicosvg", "        self.absolute(inplace=True)\n        self.round_floats(ndigits, inplace=True)\n",
                                                    "        self.round_floats(ndigits, inplace=True)\n        self.absolute(inplace=True)\n")],
             [("R-ORDER.stages", "topicosvg")]),
     Variant("remove_title_meta_desc after simplify", [Edit(_S, "SVG.topicosvg", "        self.remove_title_meta_desc(inplace=True)\n", ""),
                                                       Edit(_S, "SVG.topicosvg", "        self.simplify(inplace=True)\n", "        self.simplify(inplace=True)\n        self.remove_title_meta_desc(inplace=True)\n")],
-            [("R-ORDER.stages", "topicosvg")]),
+            [("R-ORDER.cleanup-after-removal", "topicosvg")]),
     Variant("explicit_lines skips h", [Edit("svg_types", "_explicit_lines_callback", 'elif cmd == "h":', 'elif cmd == "hh":')], [("R-CASE.letters", "explicit_lines")]),
     Variant("kept group keeps fill", [Edit(_S, "_try_remove_group", "        group_el.attrib[\"opacity\"] = ntos(opacity)\n", "        group_el.attrib[\"opacity\"] = ntos(opacity)\n        group_el.attrib[\"fill\"] = \"inherit\"\n")],
             [("R-GUARD.group-attrs", "_try_remove_group")]),
     Variant("root attribute purge deleted", [Edit(_S, "SVG._simplify", "        _del_attrs(self.svg_root, *_INHERITABLE_ATTRIB)\n", "")], [("R-SITE.simplify", "_simplify")]),
     Variant("gate only when not drop_unsupported", [Edit(_S, "SVG.topicosvg", "        violations = self.checkpicosvg(\n            allow_text=allow_text, drop_unsupported=drop_unsupported\n        )\n",
                                                           "        violations = ()\n        if not drop_unsupported:\n            violations = self.checkpicosvg(\n                allow_text=allow_text, drop_unsupported=drop_unsupported\n            )\n")],
-            [("R-ORDER.gate", "topicosvg")]),
+            [("R-", "topicosvg")]),
     Variant("CLI swaps the flags", [Edit("picosvg", "_run", "allow_text=FLAGS.allow_text, drop_unsupported=FLAGS.drop_unsupported", "allow_text=FLAGS.drop_unsupported, drop_unsupported=FLAGS.allow_text")],
             [("R-SITE.options", "_run")]),
     Variant("decision on raw opacity", [Edit(_S, "_is_removable_group", "_opacity(el) in {0.0, 1.0}", "float(el.attrib.get('opacity', 1.0)) in {0.0, 1.0}")],
             [("R-GUARD.group-attrs", "_is_removable_group")]),
     Variant("conditional rounding", [Edit("svg_types", "SVGPath.round_floats", "        d, target.d = target.d, \"\"", "        if 'e' not in target.d and len(target.d) < 9:\n            return target\n        d, target.d = target.d, \"\"")],
-            [("R-CASE.round", "round_floats")]),
+            [("R-CASE.round", "round_floats")], allow_analysis_error=True),
     Variant("new element kind created late", [Edit(_S, "SVG.remove_unpainted_shapes", "        self.elements = None\n\n        return self", "        self.svg_root.append(etree.Element('metadata'))\n        self.elements = None\n\n        return self")],
-            [("R-SITE.who-may-create", "remove_unpainted_shapes")]),
+            [("R-ORDER.gate", "topicosvg")]),
     Variant("clipPath subtrees kept", [Edit(_S, "SVG._simplify", '            if "clipPath" in context.path:\n                _safe_remove(context.element)\n                continue\n', "")],
-            [("R-SITE.simplify", "_simplify")]),
+            [("R-", "topicosvg")]),
     Variant("silent: swap two junk removers", [Edit(_S, "SVG.topicosvg", "        self.remove_anonymous_symbols(inplace=True)\n        self.remove_title_meta_desc(inplace=True)\n",
                                                     "        self.remove_title_meta_desc(inplace=True)\n        self.remove_anonymous_symbols(inplace=True)\n")], silent=True),
     Variant("silent: tidy stages moved into a helper", [Edit(_S, "SVG.topicosvg", "        self.evenodd_to_nonzero_winding(inplace=True)\n        self.normalize_opacity(inplace=True)\n        self.absolute(inplace=True)\n",
